@@ -56,7 +56,7 @@ REQUIRED_COUNTERS = {
               "stop_maxdepth": 300, "stop_uturn_subtree": 120, "stop_uturn_top": 400, "stop_divergence": 150,
               "cache_checked": 1000, "alpha_stat_checked": 600, "tie_transitions_judged": 20, "hostile_leaves_seen": 40,
               "law_reps": 64000, "law_cells_compared": 70, "stationarity_tests": 130,
-              "stationarity_replicates": 240000, "reversibility_points_compared": 25,
+              "stationarity_replicates": 240000, "reversibility_points_compared": 16,
               "volume_jacobians_checked": 6, "warmup_eps_constant_checked": 12, "returned_chain_checked": 100},
     "thorough": {"leaves_matched": 60000, "transitions_judged": 9000, "selection_replayed": 9000, "selection_support_checked": 9000,
                  "stop_maxdepth": 2500, "stop_uturn_subtree": 1000, "stop_uturn_top": 3500, "stop_divergence": 1200,
